@@ -25,6 +25,30 @@ pub use interval::Interval;
 pub use mean::MeanCI;
 pub use mean::StatisticsOps;
 
+/// Verification hooks (only with `--cfg stats_ci_verif`): read-only access to private values.
+#[cfg(stats_ci_verif)]
+#[allow(missing_docs)]
+pub mod verif {
+    use super::Confidence;
+    pub fn t_value(confidence: Confidence, degrees_of_freedom: f64) -> f64 {
+        crate::stats::t_value(confidence, degrees_of_freedom)
+    }
+    pub fn z_value(confidence: Confidence) -> f64 {
+        crate::stats::z_value(confidence)
+    }
+    pub fn interval_bounds(
+        confidence: Confidence,
+        mean: f64,
+        std_err_mean: f64,
+        degrees_of_freedom: f64,
+    ) -> (f64, f64) {
+        crate::stats::interval_bounds(confidence, mean, std_err_mean, degrees_of_freedom)
+    }
+    pub fn confidence_quantile(confidence: Confidence) -> f64 {
+        confidence.quantile()
+    }
+}
+
 #[cfg(test)]
 mod tests {
     use super::*;
